@@ -227,8 +227,14 @@ func genPlan(r *vlib.Rand) plan {
 			if j > 0 && r.Chance(25) { // tie on NotAfter with the previous chain of this key
 				c.na = p.chains[len(p.chains)-1].na
 				if c.na <= c.nb {
-					c.nb = c.na - 3600
+					c.nb = c.na - 3601
+					if !okSec(c.nb) {
+						c.nb = -7201
+					}
 				}
+			}
+			if !okSec(c.nb) || !okSec(c.na) || c.na <= c.nb {
+				panic(fmt.Sprintf("generator: validity (%d,%d) violates the clock margin", c.nb, c.na))
 			}
 			id++
 			p.chains = append(p.chains, c)
